@@ -326,7 +326,9 @@ func c08PathShapes(r *ev.Result, base string) {
 		"doubled-separators":   root + "//dd///cert.txtar",
 		"dot-segments":         root + "/./ds/./cert.txtar",
 		"trailing-dotdot":      root + "/td/x/../cert.txtar",
+		"path-is-a-symlink":    root + "/cache-link", /* -> real/target.txtar, which does not exist at first */
 	}
+	os.Symlink(filepath.Join("real", "target.txtar"), filepath.Join(root, "cache-link"))
 	n := 0
 	for name, cache := range shapes {
 		v := func(sig, what string) {
